@@ -159,8 +159,10 @@ theorem buildTable_regenerated (h : Gen.Code.buildTable_extracted = true) (data 
              · rw [if_pos (by omega), idx_nat _ _ hc2]; simp [List.getD_eq_getElem?_getD, hc2]
              · rw [if_neg (by omega)]; simp [List.getD_eq_getElem?_getD, hc2]
            simp only [idx_nat data k hk, idx_nat colWidths col hcol', pure_bind, bind_pure, hrow, ite_pure]
-           have hk0 : ((k : Int) = 0 ∧ header = true) ↔ ((k == 0 && header) = true) := by simp
-           simp only [btCell, hgetc, hk0]
+           -- header cell or body cell: decided by cases, so that swapped arms / De Morgan re-prove
+           have hkI : ((k : Int) = 0) ↔ (k = 0) := by omega
+           simp only [btCell, hgetc]
+           by_cases hkz : k = 0 <;> cases header <;> cases border <;> simp [hkz, hkI]
          simp only [pure_bind, Int.toNat_natCast]
          rw [foldl_pair_snd (btCell cx data[k] colWidths (k == 0 && header) border chars)
            (fun b c => b ++ btCell cx data[k] colWidths (k == 0 && header) border chars c)]
@@ -346,9 +348,11 @@ theorem makeTable_regenerated (h : Gen.Code.makeTable_extracted = true) (data : 
              have hcopy2 : Go.copySlice (List.replicate n (0 : Int)) padded = padded := by
                rw [← hpl]; exact hcopy padded
              simp only [hcopy2]
+             -- the guard in both polarities (`spaceToAdd > 0` / `spaceToAdd <= 0` with swapped arms)
              by_cases hsp : width - mw > 0
-             · simp only [hsp, if_true]
-               generalize hsp' : width - mw = sp at hsp ⊢
+             · have hspn : ¬ width - mw ≤ 0 := by omega
+               simp only [hsp, hspn, if_true, if_false]
+               generalize hsp' : width - mw = sp at hsp hspn ⊢
                generalize hnts : (if border = false ∧ (n : Int) > 1 then (n : Int) - 1 else (n : Int)) = nts
                have hnts1 : 1 ≤ nts ∧ nts ≤ (n : Int) := by
                  rw [← hnts]; split <;> omega
@@ -402,7 +406,8 @@ theorem makeTable_regenerated (h : Gen.Code.makeTable_extracted = true) (data : 
                    have hc : (i < nts.toNat ∧ i < padded.length) ↔ ((i : Int) < nts) := by omega
                    simp only [hc]
                rw [hfin]
-             · simp only [hsp, if_false, pure_bind]
+             · have hspn : width - mw ≤ 0 := by omega
+               simp only [hsp, hspn, if_true, if_false, pure_bind]
          · intro k x s hk
            have hget : data.getD k [] = data[k] := by simp [List.getD_eq_getElem?_getD, hk]
            simp only [idx_nat data k hk, pure_bind, hget, ite_pure])
